@@ -63,6 +63,7 @@ k_c05_conv!(k_c05_conv_u8_p3, u8, 3);
 k_c05_conv!(k_c05_conv_u8_p4, u8, 4);
 k_c05_conv!(k_c05_conv_u16_p4, u16, 4);
 k_c05_conv!(k_c05_conv_u16_p3, u16, 3);
+k_c05_conv!(k_c05_conv_u8_p8, u8, 8); // PRECISION == Probability::BITS: the total 2^8 wraps to 0 in the cdf
 
 use constriction::stream::model::{NonContiguousCategoricalDecoderModel, NonContiguousLookupDecoderModel};
 
